@@ -350,3 +350,32 @@ package sugardb
 //@     invariant {C08} cached-are-stored-lfu: forall k string :: has(server.lfuCache.cache[database].keys, k) && !old(has(server.lfuCache.cache[database].keys, k)) ==> has(server.store[database], k) && (lower(server.config.EvictionPolicy) == "volatile-lfu" ==> server.store[database][k].ExpireAt != zerotime)
 //@     invariant {C08} cached-are-stored-lru: forall k string :: has(server.lruCache.cache[database].keys, k) && !old(has(server.lruCache.cache[database].keys, k)) ==> has(server.store[database], k) && (lower(server.config.EvictionPolicy) == "volatile-lru" ==> server.store[database][k].ExpireAt != zerotime)
 //@     invariant same: server.lfuCache.cache[database] == old(server.lfuCache.cache[database]) && server.lruCache.cache[database] == old(server.lruCache.cache[database]) && server.lfuCache.cache[database].keys == old(server.lfuCache.cache[database].keys) && server.lruCache.cache[database].keys == old(server.lruCache.cache[database].keys)
+
+// ---- state copy for snapshots and log rewrites -----------------------------------------------------
+// getState returns a copy of every database: new maps (nothing is shared with the store) holding exactly the stored entries,
+// and it leaves the store itself and the copy-in-progress flag as they were (flag lowered again).
+//@ func (*SugarDB).getState props C03,C05,C13
+//@   requires inv(server, maps) && inv(server, present)
+//@   ensures {C03} isfresh: fresh(result) && (forall d int :: has(result, d) ==> result[d] != nil && fresh(result[d]))
+//@   ensures {C03,C20} dbs: forall d int :: has(result, d) <==> has(server.store, d)
+//@   ensures {C03} entries: forall d int, k string :: has(server.store, d) ==> (has(result[d], k) <==> has(server.store[d], k)) && (has(server.store[d], k) ==> result[d][k] == boxed(server.store[d][k]))
+//@   ensures {C13} store-untouched: forall d int, k string :: server.store[d] == old(server.store[d]) && (has(server.store[d], k) <==> old(has(server.store[d], k))) && server.store[d][k] == old(server.store[d][k])
+//@   ensures {C05} flag-lowered: atomic(server.stateCopyInProgress) == 0
+//@   loop 1
+//@     invariant fresh(data) && inv(server, maps) && inv(server, present) && atomic(server.stateCopyInProgress) != 0
+//@     invariant forall d int :: domain0(d) <==> has(server.store, d)
+//@     invariant forall d int :: has(data, d) <==> seen(d)
+//@     invariant forall d int :: has(data, d) ==> data[d] != nil && fresh(data[d]) && allocated(data[d])
+//@     invariant forall d int, e int :: has(data, d) && has(data, e) && d != e ==> data[d] != data[e]
+//@     invariant forall d int, k string :: seen(d) ==> (has(data[d], k) <==> has(server.store[d], k)) && (has(server.store[d], k) ==> data[d][k] == boxed(server.store[d][k]))
+//@     invariant forall d int, k string :: server.store[d] == old(server.store[d]) && (has(server.store[d], k) <==> old(has(server.store[d], k))) && server.store[d][k] == old(server.store[d][k])
+//@   loop 2
+//@     invariant fresh(data) && inv(server, maps) && inv(server, present) && atomic(server.stateCopyInProgress) != 0 && has(data, db) && data[db] != nil && fresh(data[db]) && store == server.store[db] && has(server.store, db) && seenin(1, db)
+//@     invariant forall d int :: has(data, d) <==> (seenin(1, d) || d == db)
+//@     invariant forall d int :: has(data, d) ==> data[d] != nil && fresh(data[d]) && allocated(data[d])
+//@     invariant forall d int, e int :: has(data, d) && has(data, e) && d != e ==> data[d] != data[e]
+//@     invariant forall k string :: domain0(k) <==> has(store, k)
+//@     invariant forall k string :: has(data[db], k) <==> seen(k)
+//@     invariant forall k string :: seen(k) ==> data[db][k] == boxed(store[k])
+//@     invariant forall d int, k string :: seenin(1, d) && d != db ==> (has(data[d], k) <==> has(server.store[d], k)) && (has(server.store[d], k) ==> data[d][k] == boxed(server.store[d][k]))
+//@     invariant forall d int, k string :: server.store[d] == old(server.store[d]) && (has(server.store[d], k) <==> old(has(server.store[d], k))) && server.store[d][k] == old(server.store[d][k])
